@@ -115,6 +115,17 @@ CHECKS.update({
         note="Argument-coercion failures of the source field itself are outside the statement and not generated."),
 })
 
+CHECKS.update({
+    "C17": dict(
+        level="exploration", design="DESIGN.md section 5 C17",
+        technique="deterministic simulation: seeded interleavings of registrations and overlapping cooks of 2-4 bundles in one process; oracle = the same bundle built alone in a forked fresh process",
+        text="Every single registration (resolver, type resolver, scalar, subscription, directive) of 2-4 name-overlapping bundles is "
+             "interleaved with the cook starts in a seeded order; cooks overlap through synthesized modules whose async bake pauses "
+             "at scheduler gates. Probe requests incl. introspection and the actors they invoke must equal those of the bundle "
+             "built alone in a forked child with a clean registry.",
+        note="Fresh process = fork of the worker before anything of the run is registered."),
+})
+
 NOT_APPLICABLE = {
     "C10": "pure synchronous functions of one value (scalar coercion laws): no schedule, clock, fault, interleaving or history "
            "for a simulator to control; deciding them is boundary-value enumeration, a different technique (DESIGN.md section 2)",
